@@ -44,12 +44,22 @@ pub mod error {
 ///    "a-req": {
 ///      "type": "string"
 ///    },
-///    "bOpt": {
+///    "dDef": {
+///      "default": "x y",
 ///      "type": "string"
 ///    },
-///    "c-def0": {
-///      "default": "",
-///      "type": "string"
+///    "e-null": {
+///      "type": [
+///        "string",
+///        "null"
+///      ]
+///    },
+///    "fNullDef": {
+///      "default": "x y",
+///      "type": [
+///        "string",
+///        "null"
+///      ]
 ///    }
 ///  }
 ///}
@@ -59,14 +69,16 @@ pub mod error {
 pub struct G {
     #[serde(rename = "a-req")]
     pub a_req: ::std::string::String,
+    #[serde(rename = "dDef", default = "defaults::g_d_def")]
+    pub d_def: ::std::string::String,
     #[serde(
-        rename = "bOpt",
+        rename = "e-null",
         default,
         skip_serializing_if = "::std::option::Option::is_none"
     )]
-    pub b_opt: ::std::option::Option<::std::string::String>,
-    #[serde(rename = "c-def0", default)]
-    pub c_def0: ::std::string::String,
+    pub e_null: ::std::option::Option<::std::string::String>,
+    #[serde(rename = "fNullDef", default = "defaults::g_f_null_def")]
+    pub f_null_def: ::std::option::Option<::std::string::String>,
 }
 impl ::std::convert::From<&G> for G {
     fn from(value: &G) -> Self {
@@ -83,18 +95,23 @@ pub mod builder {
     #[derive(Clone, Debug)]
     pub struct G {
         a_req: ::std::result::Result<::std::string::String, ::std::string::String>,
-        b_opt: ::std::result::Result<
+        d_def: ::std::result::Result<::std::string::String, ::std::string::String>,
+        e_null: ::std::result::Result<
             ::std::option::Option<::std::string::String>,
             ::std::string::String,
         >,
-        c_def0: ::std::result::Result<::std::string::String, ::std::string::String>,
+        f_null_def: ::std::result::Result<
+            ::std::option::Option<::std::string::String>,
+            ::std::string::String,
+        >,
     }
     impl ::std::default::Default for G {
         fn default() -> Self {
             Self {
                 a_req: Err("no value supplied for a_req".to_string()),
-                b_opt: Ok(Default::default()),
-                c_def0: Ok(Default::default()),
+                d_def: Ok(super::defaults::g_d_def()),
+                e_null: Ok(Default::default()),
+                f_null_def: Ok(super::defaults::g_f_null_def()),
             }
         }
     }
@@ -111,27 +128,39 @@ pub mod builder {
                 });
             self
         }
-        pub fn b_opt<T>(mut self, value: T) -> Self
-        where
-            T: ::std::convert::TryInto<::std::option::Option<::std::string::String>>,
-            T::Error: ::std::fmt::Display,
-        {
-            self.b_opt = value
-                .try_into()
-                .map_err(|e| {
-                    format!("error converting supplied value for b_opt: {}", e)
-                });
-            self
-        }
-        pub fn c_def0<T>(mut self, value: T) -> Self
+        pub fn d_def<T>(mut self, value: T) -> Self
         where
             T: ::std::convert::TryInto<::std::string::String>,
             T::Error: ::std::fmt::Display,
         {
-            self.c_def0 = value
+            self.d_def = value
                 .try_into()
                 .map_err(|e| {
-                    format!("error converting supplied value for c_def0: {}", e)
+                    format!("error converting supplied value for d_def: {}", e)
+                });
+            self
+        }
+        pub fn e_null<T>(mut self, value: T) -> Self
+        where
+            T: ::std::convert::TryInto<::std::option::Option<::std::string::String>>,
+            T::Error: ::std::fmt::Display,
+        {
+            self.e_null = value
+                .try_into()
+                .map_err(|e| {
+                    format!("error converting supplied value for e_null: {}", e)
+                });
+            self
+        }
+        pub fn f_null_def<T>(mut self, value: T) -> Self
+        where
+            T: ::std::convert::TryInto<::std::option::Option<::std::string::String>>,
+            T::Error: ::std::fmt::Display,
+        {
+            self.f_null_def = value
+                .try_into()
+                .map_err(|e| {
+                    format!("error converting supplied value for f_null_def: {}", e)
                 });
             self
         }
@@ -143,8 +172,9 @@ pub mod builder {
         ) -> ::std::result::Result<Self, super::error::ConversionError> {
             Ok(Self {
                 a_req: value.a_req?,
-                b_opt: value.b_opt?,
-                c_def0: value.c_def0?,
+                d_def: value.d_def?,
+                e_null: value.e_null?,
+                f_null_def: value.f_null_def?,
             })
         }
     }
@@ -152,9 +182,19 @@ pub mod builder {
         fn from(value: super::G) -> Self {
             Self {
                 a_req: Ok(value.a_req),
-                b_opt: Ok(value.b_opt),
-                c_def0: Ok(value.c_def0),
+                d_def: Ok(value.d_def),
+                e_null: Ok(value.e_null),
+                f_null_def: Ok(value.f_null_def),
             }
         }
+    }
+}
+/// Generation of default values for serde.
+pub mod defaults {
+    pub(super) fn g_d_def() -> ::std::string::String {
+        "x y".to_string()
+    }
+    pub(super) fn g_f_null_def() -> ::std::option::Option<::std::string::String> {
+        ::std::option::Option::Some("x y".to_string())
     }
 }
